@@ -1,8 +1,95 @@
 import MetadorModel.Py.DrvLib
-/-! Driver stub (to be filled in). -/
-open MetadorModel
+import MetadorModel.Model.Paths
+/-! Driver for the reserved-namespace model (C08). Strings are hex-encoded tokens.
 
-def step (s : Unit) : List String → Unit × String
+```
+int <p>            is_internal_path(p)                       -> T | F
+intp <p> <pref>    is_internal_path(p, pref)                 -> T | F
+mb <p>             is_meta_base_path(p)                      -> T | F
+tm <p> <0|1>       to_meta_base_path(p, is_dataset)          -> hex
+td <p>             to_data_node_path(p)                      -> hex
+node <abs> <g|d>   plant a raw node                          -> ok
+keys <g>           sorted user-visible keys of group g       -> keys hex…
+len <g>            len(group)                                -> len n
+visit <g>          sorted names presented by visit           -> visit hex…
+in <g> <p>         p in group                                -> T | F | rej
+call <m> <p>…      path guards of a call with these path-typed arguments -> rej | pass
+```
+-/
+open MetadorModel MetadorModel.Paths MetadorModel.Drv
+
+def b2s (b : Bool) : String := if b then "T" else "F"
+
+def unhexL (s : String) : Option Str := (unhexStr s).map String.toList
+
+def hexL (s : Str) : String := hexStr (String.ofList s)
+
+def sortStrs (l : List Str) : List String :=
+  ((l.map String.ofList).toArray.qsort (· < ·)).toList
+
+def showList (tag : String) (l : List Str) : String :=
+  " ".intercalate (tag :: (sortStrs l).map hexStr)
+
+def unhexAll : List String → Option (List Str)
+  | [] => some []
+  | a :: l => do
+    let x ← unhexL a
+    let r ← unhexAll l
+    pure (x :: r)
+
+def step (s : Raw) : List String → Raw × String
+  | ["int", p] =>
+    match unhexL p with
+    | some p => (s, b2s (isInternalPath p))
+    | none => (s, "bad-op")
+  | ["intp", p, q] =>
+    match unhexL p, unhexL q with
+    | some p, some q => (s, b2s (isInternalPathP p q))
+    | _, _ => (s, "bad-op")
+  | ["mb", p] =>
+    match unhexL p with
+    | some p => (s, b2s (isMetaBasePath p))
+    | none => (s, "bad-op")
+  | ["tm", p, d] =>
+    match unhexL p, d with
+    | some p, "0" => (s, hexL (toMetaBasePath p false))
+    | some p, "1" => (s, hexL (toMetaBasePath p true))
+    | _, _ => (s, "bad-op")
+  | ["td", p] =>
+    match unhexL p with
+    | some p => (s, hexL (toDataNodePath p))
+    | none => (s, "bad-op")
+  | ["node", p, k] =>
+    match unhexL p, k with
+    | some p, "g" => (s ++ [⟨p, true⟩], "ok")
+    | some p, "d" => (s ++ [⟨p, false⟩], "ok")
+    | _, _ => (s, "bad-op")
+  | ["keys", g] =>
+    match unhexL g with
+    | some g => (s, showList "keys" (keys s g))
+    | none => (s, "bad-op")
+  | ["len", g] =>
+    match unhexL g with
+    | some g => (s, s!"len {len s g}")
+    | none => (s, "bad-op")
+  | ["visit", g] =>
+    match unhexL g with
+    | some g => (s, showList "visit" (visit s g))
+    | none => (s, "bad-op")
+  | ["in", g, p] =>
+    match unhexL g, unhexL p with
+    | some g, some p =>
+      (s, match Paths.contains false s g p with
+          | .ok b => b2s b
+          | .error _ => "rej")
+    | _, _ => (s, "bad-op")
+  | "call" :: _m :: args =>
+    match unhexAll args with
+    | some ps =>
+      (s, match runGuards false false ps ((List.range ps.length).map Guard.path) with
+          | .ok () => "pass"
+          | .error _ => "rej")
+    | none => (s, "bad-op")
   | _ => (s, "bad-op")
 
-def main : IO Unit := Drv.run () step
+def main : IO Unit := Drv.run ([] : Raw) step
